@@ -66,7 +66,7 @@ CLAUSES = {
     "distance closed form (pins the code): (0,0) if s = 0, ZeroDivisionError if c = 0, else Andoyer's formula with round(dist f^2, 0), every float input":
         "proved [ideal, C18_distance_value; the spec `andoyer` is a transcription of the code: it pins the code against change and carries the symmetry/coincident/equator theorems, it is no property by itself]",
     "distance along a meridian = integral of rm (1e-4)":
-        "proved [ideal, C18_distance_meridian_arc(_angle) + C18_andoyer_meridian_first_order; Coquelicot RInt of mer_radius = the function Earth.rm computes (rm_ok): for one meridian, latitudes p1 < p2 < p1 + 180 deg, a > 0, 0 <= f <= 0.01: the integral exists and |arc - D| <= 2 f^2 a (phi2 - phi1); for f <= 0.007 (IAU76, WGS84; user ellipsoids up to 0.007) |arc - D| <= 1e-4 arc. Mechanism: Andoyer as coded is EXACTLY the integral of the first-order expansion a(1 - 2f + 3f sin^2 phi), and |rm - expansion| <= 2 f^2 a pointwise (polynomial factorisations + interval). Not proved: 0.007 < f <= 0.01 at 1e-4 (the true deviation there is about f^2 = 1e-4: searched with max(1e-4, 3f^2)), p2 - p1 = 180 deg exactly (antipodal through the poles), binary64 rounding]",
+        "proved [ideal, C18_distance_meridian_arc(_angle) + C18_andoyer_meridian_first_order; Coquelicot RInt of mer_radius = the function Earth.rm computes (rm_ok): for one meridian, latitudes p1 < p2 < p1 + 180 deg, a > 0, 0 <= f <= 0.01: the integral exists and |arc - D| <= 2 f^2 a (phi2 - phi1); for f <= 0.007 (IAU76, WGS84; user ellipsoids up to 0.007) |arc - D| <= 1e-4 arc. Mechanism: Andoyer as coded is EXACTLY the integral of the first-order expansion a(1 - 2f + 3f sin^2 phi), and |rm - expansion| <= 2 f^2 a pointwise (polynomial factorisations + interval). NOT TRUE for the whole user range: Andoyer's formula is first order in f and the literal 1e-4 is exceeded for f above about 0.0099 (Earth(Ellipsoid(6378137.0, 0.01, w)).distance(0.0, 0.0, 0.0, 0.5) = 54546.593 m, integral of rm = 54552.158 m, relative 1.02e-4): for user ellipsoids the oracle therefore uses max(1e-4, 3 f^2). Not proved: p2 - p1 = 180 deg exactly (antipodal through the poles), binary64 rounding]",
     "distance within 0.6 % of the great-circle distance":
         "proved [ideal, C18_distance_great_circle(_angle) + C18_central_angle + C18_builtin_flattening: for every pair that is neither coincident nor exactly antipodal (s > 0, c > 0) and every a > 0, f >= 0: a sigma (1-2f) <= D <= a sigma (1+f), sigma = central angle (haversine formula proved); for f <= 0.00359 (IAU76, WGS84) |D - R sigma| <= 0.006 R sigma with the mean radius R = (2a+b)/3. With R = a the clause is false (2f = 0.67 % along a meridian at the equator). Exactly antipodal pairs and binary64 rounding: searched]",
     "parallax_correction closed form (after repairs 5494b49/2d034b9): delta_alpha = atan2(B, A), dec' = atan2(sin d - rho_sin k, hypot(A, B)), WGS84 observer":
